@@ -183,6 +183,9 @@ class Float:
                 raise ValueError
             if value[-1:].isspace():
                 raise ValueError
+            if b'_' in value:
+                # Python accepts digit separators (1_000), strtod does not
+                raise ValueError
             out = float(value)
             if math.isnan(out):
                 raise ValueError
